@@ -384,6 +384,9 @@ class _InlineNewHelpers(_InlineMethods):
                     new_methods.setdefault(cls.name, {})[m.name] = m
         if not self.new_funcs and not new_methods:
             return False
+        self.touched = {}
+        self.host_names = {}
+        self.records = _record_types(self.tree)
         for _ in range(3):
             for fn in self.module_funcs.values():
                 self.methods = {}
@@ -393,7 +396,32 @@ class _InlineNewHelpers(_InlineMethods):
                 for m in cls.body:
                     if isinstance(m, ast.FunctionDef):
                         m.body = self._block(m.body, m, self.methods)
+        self._drop_dead_helpers(classes, new_methods)
+        records = _record_types(self.tree)
+        for fn in self.touched.values():
+            for _ in range(3):
+                _scalar_replacement(fn, records)
+                _propagate_temporaries(fn)
         return True
+
+    def _drop_dead_helpers(self, classes, new_methods):
+        """a private new helper that was expanded at every place it is mentioned in this module is no longer part of the analysed program (rules
+        that look at every function of a module would otherwise see its statements twice)"""
+        cands = {k: v for k, v in self.new_funcs.items() if k.startswith('_')}
+        mcands = {(c, k): v for c, ms in new_methods.items() for k, v in ms.items() if k.startswith('_')}
+        if not cands and not mcands:
+            return
+        mentioned = set()
+        for x in ast.walk(self.tree):
+            if isinstance(x, ast.Name):
+                mentioned.add(x.id)
+            elif isinstance(x, ast.Attribute):
+                mentioned.add(x.attr)
+            elif isinstance(x, ast.Constant) and isinstance(x.value, str) and x.value.isidentifier():
+                mentioned.add(x.value)
+        self.tree.body = [st for st in self.tree.body if not (isinstance(st, ast.FunctionDef) and st.name in cands and st.name not in mentioned)]
+        for cls in classes:
+            cls.body = [m for m in cls.body if not (isinstance(m, ast.FunctionDef) and (cls.name, m.name) in mcands and m.name not in mentioned)] or [ast.Pass()]
 
     def _eligible(self, host, m):
         if m is host or (m.decorator_list and not self._is_static(m)) or m.args.vararg or m.args.kwarg or len(m.body) > 120:
@@ -404,8 +432,9 @@ class _InlineNewHelpers(_InlineMethods):
         for x in ast.walk(m):
             if isinstance(x, (ast.Yield, ast.YieldFrom, ast.Await, ast.Global, ast.Nonlocal)):
                 return False
-            if x is not m and isinstance(x, (ast.FunctionDef, ast.AsyncFunctionDef, ast.Lambda, ast.ClassDef)):
+            if x is not m and isinstance(x, (ast.AsyncFunctionDef, ast.ClassDef)):
                 return False
+            # (nested functions and lambdas are carried along when no name of the helper has to change, see _expand)
             # a helper that calls itself is not expanded
             if isinstance(x, ast.Call) and ((isinstance(x.func, ast.Name) and x.func.id == m.name) or (isinstance(x.func, ast.Attribute) and x.func.attr == m.name)):
                 return False
@@ -423,7 +452,11 @@ class _InlineNewHelpers(_InlineMethods):
 
     def _block(self, stmts, host, methods):
         out = []
-        for st in stmts:
+        skip = False
+        for i_, st in enumerate(stmts):
+            if skip:
+                skip = False
+                continue
             for fld in ('body', 'orelse', 'finalbody'):
                 if isinstance(getattr(st, fld, None), list) and not isinstance(st, (ast.FunctionDef, ast.AsyncFunctionDef, ast.ClassDef)):
                     setattr(st, fld, self._block(getattr(st, fld), host, methods))
@@ -433,6 +466,13 @@ class _InlineNewHelpers(_InlineMethods):
             if isinstance(st, (ast.FunctionDef, ast.AsyncFunctionDef, ast.ClassDef)):
                 out.append(st)
                 continue
+            # `x = helper(...)` directly followed by a test of x alone: every exit of the helper continues with the branch its value selects
+            if i_ + 1 < len(stmts):
+                both = self._expand_tested_result(st, stmts[i_ + 1], host)
+                if both is not None:
+                    out += both
+                    skip = True
+                    continue
 
             def is_new(c):
                 r = self._callee(c, host)
@@ -476,7 +516,7 @@ class _InlineNewHelpers(_InlineMethods):
             out += seq
         return out
 
-    def _expand(self, st, call, target, host, m, has_recv=True, tail=False, on_return=None):
+    def _expand(self, st, call, target, host, m, has_recv=True, tail=False, on_return=None, keep=()):
         """like the expander of the base class, but: locals keep their names unless the host uses the same name for something else (an extracted
         block usually kept the names it had); a `return` anywhere in the helper becomes the assignment of the call's target followed by a jump
         to the end of the expanded block (a constant-true `if` marked `_inlined_block_id`, the jump a `pass` marked `_leave_id`: the flow graph
@@ -512,14 +552,19 @@ class _InlineNewHelpers(_InlineMethods):
             for x in ast.walk(b):
                 if isinstance(x, ast.ExceptHandler) and x.name:
                     stored.add(x.name)
-        host_names = {x.id for x in ast.walk(host) if isinstance(x, ast.Name)} | {a.arg for a in host.args.posonlyargs + host.args.args + host.args.kwonlyargs}
+        if id(host) not in self.host_names:
+            # the names of the host as written (names brought in by earlier expansions do not count as the host's own)
+            self.host_names[id(host)] = {x.id for x in ast.walk(host) if isinstance(x, ast.Name)} | {a.arg for a in host.args.posonlyargs + host.args.args + host.args.kwonlyargs}
+        host_names = self.host_names[id(host)]
         tnames = set()
         if isinstance(target, ast.Name):
             tnames = {target.id}
         elif isinstance(target, ast.Tuple) and all(isinstance(e, ast.Name) for e in target.elts):
             tnames = {e.id for e in target.elts}
+        tnames |= set(keep)
         arg_names = {p_: {x.id for x in ast.walk(a) if isinstance(x, ast.Name)} for p_, a in bound.items()}
         mapping = {}
+        subst = {}
         if has_recv:
             mapping[recv_m] = host.args.args[0].arg
         pre = []
@@ -528,6 +573,9 @@ class _InlineNewHelpers(_InlineMethods):
             if isinstance(a, ast.Name) and a.id == p_ and (p_ not in stored or tail or p_ in tnames):
                 mapping[p_] = p_
                 continue
+            if p_ not in stored and _is_pure_path(a):
+                subst[p_] = a           # a parameter that is only read stands for the plain expression it was given
+                continue
             keep = (p_ not in host_names or p_ in tnames) and not any(p_ in ns for q, ns in arg_names.items() if q != p_)
             mapping[p_] = p_ if keep else tag + p_
             asg = ast.Assign(targets=[ast.Name(id=mapping[p_], ctx=ast.Store())], value=a, type_comment=None)
@@ -535,8 +583,18 @@ class _InlineNewHelpers(_InlineMethods):
         for nm in stored:
             if nm not in mapping:
                 mapping[nm] = nm if (nm not in host_names or nm in tnames) else tag + nm
+        if any(isinstance(x, (ast.FunctionDef, ast.Lambda)) for b in body for x in ast.walk(b)):
+            # nested scopes are not rewritten: only possible when nothing has to be renamed or substituted
+            if any(k != v for k, v in mapping.items()) or any(not isinstance(v, ast.Name) or v.id != k for k, v in subst.items()):
+                inner_names = {y.id for b in body for x in ast.walk(b) if isinstance(x, (ast.FunctionDef, ast.Lambda)) for y in ast.walk(x) if isinstance(y, ast.Name)}
+                if inner_names & ({k for k, v in mapping.items() if k != v} | set(subst)):
+                    raise ValueError('nested scope mentions a name that would change')
+            if any(isinstance(x, ast.FunctionDef) and x.name in host_names for b in body for x in ast.walk(b)):
+                raise ValueError('nested function name clashes')
         ren = _Rename({k: v for k, v in mapping.items() if k != v})
         body = [ren.visit(b) for b in body]
+        if subst:
+            body = [_Subst(subst).visit(b) for b in body]
         for b in body:
             for x in ast.walk(b):
                 if isinstance(x, ast.ExceptHandler) and x.name in mapping:
@@ -596,12 +654,45 @@ class _InlineNewHelpers(_InlineMethods):
             ast.fix_missing_locations(x)
         return res or [ast.copy_location(ast.Pass(), st)]
 
-    def _try_expand(self, st, call, target, host, tail=False, on_return=None):
+    def _try_expand(self, st, call, target, host, tail=False, on_return=None, keep=()):
         m, has_recv = self._callee(call, host)
+        self.touched[id(host)] = host
         try:
-            return self._expand(st, call, target, host, m, has_recv=has_recv, tail=tail, on_return=on_return)
+            return self._expand(st, call, target, host, m, has_recv=has_recv, tail=tail, on_return=on_return, keep=keep)
         except Exception:
             return None if on_return is not None else [st]
+
+    def _expand_tested_result(self, st, nxt, host):
+        import copy
+        if not (isinstance(st, ast.Assign) and len(st.targets) == 1 and isinstance(st.targets[0], ast.Name) and isinstance(st.value, ast.Call) and isinstance(nxt, ast.If)):
+            return None
+        X = st.targets[0].id
+        r = self._callee(st.value, host)
+        if r is None or not self._eligible(host, r[0]):
+            return None
+        names = {x.id for x in ast.walk(nxt.test) if isinstance(x, ast.Name)}
+        if names != {X} or any(isinstance(x, ast.Call) for x in ast.walk(nxt.test)):
+            return None
+        branches = nxt.body + nxt.orelse
+        if sum(1 for b in branches for _x in ast.walk(b) if isinstance(_x, ast.stmt)) > 8:
+            return None
+        if any(isinstance(x, (ast.Break, ast.Continue)) for b in branches for x in ast.walk(b)):
+            return None
+        rets = [x for b in r[0].body for x in ast.walk(b) if isinstance(x, ast.Return)]
+        if len(rets) > 8:
+            return None
+        # the branch statements may themselves contain calls of new helpers
+        nxt.body = self._block(nxt.body, host, self.methods)
+        nxt.orelse = self._block(nxt.orelse, host, self.methods)
+
+        def on_return(ret):
+            v = ret.value if ret.value is not None else ast.copy_location(ast.Constant(value=None), ret)
+            asg = [] if (isinstance(v, ast.Name) and v.id == X) else [ast.copy_location(ast.Assign(targets=[ast.Name(id=X, ctx=ast.Store())], value=v, type_comment=None), ret)]
+            t = _static_truth(nxt.test, X, v, self.records)
+            if t is None:
+                return asg + [ast.copy_location(ast.If(test=copy.deepcopy(nxt.test), body=[copy.deepcopy(x) for x in nxt.body], orelse=[copy.deepcopy(x) for x in nxt.orelse]), ret)]
+            return asg + [copy.deepcopy(x) for x in (nxt.body if t else nxt.orelse)]
+        return self._try_expand(st, st.value, None, host, on_return=on_return, keep=(X,))
 
     def _expand_condition(self, st, host):
         """`if helper(...): A else: B` (or `if not helper(...)`): the helper's body with every `return v` replaced by the branch that v selects, so
@@ -636,6 +727,292 @@ class _InlineNewHelpers(_InlineMethods):
             new = ast.copy_location(ast.If(test=t, body=[copy.deepcopy(x) for x in st.body] or [ast.copy_location(ast.Pass(), ret)], orelse=[copy.deepcopy(x) for x in st.orelse]), ret)
             return [new]
         return self._try_expand(st, test, None, host, on_return=on_return)
+
+
+def _static_truth(test, X, v, records=()):
+    """truth of a test that mentions only the name X, when X is bound to the expression v: True / False, or None when it depends on a value"""
+    class _U(Exception):
+        pass
+
+    def val(e):
+        # abstract value: ('const', c) | ('object',) a non-None object of unknown truth | ('nonempty',) | ('empty',)
+        if isinstance(e, ast.Constant):
+            return ('const', e.value)
+        if isinstance(e, (ast.Tuple, ast.List, ast.Set)):
+            return ('nonempty',) if e.elts else ('empty',)
+        if isinstance(e, ast.Dict):
+            return ('nonempty',) if e.keys else ('empty',)
+        if isinstance(e, ast.Call) and isinstance(e.func, ast.Name) and e.func.id in records:
+            return ('nonempty',)        # an instance of a small record type of this module
+        raise _U()
+
+    def truth(a):
+        if a[0] == 'const':
+            return bool(a[1])
+        if a[0] == 'nonempty':
+            return True
+        if a[0] == 'empty':
+            return False
+        raise _U()
+
+    def ev(e):
+        if isinstance(e, ast.Name) and e.id == X:
+            return val(v)
+        if isinstance(e, ast.Constant):
+            return ('const', e.value)
+        raise _U()
+
+    def tv(e):
+        if isinstance(e, ast.UnaryOp) and isinstance(e.op, ast.Not):
+            return not tv(e.operand)
+        if isinstance(e, ast.BoolOp):
+            vs = [tv(x) for x in e.values]
+            return all(vs) if isinstance(e.op, ast.And) else any(vs)
+        if isinstance(e, ast.Compare) and len(e.ops) == 1:
+            l, r = ev(e.left), ev(e.comparators[0])
+            op = e.ops[0]
+            if isinstance(op, (ast.Is, ast.IsNot)):
+                if l[0] == 'const' and r[0] == 'const' and (l[1] is None or r[1] is None or isinstance(l[1], bool) or isinstance(r[1], bool)):
+                    return (l[1] is r[1]) == isinstance(op, ast.Is)
+                if (l[0] != 'const' and r == ('const', None)) or (r[0] != 'const' and l == ('const', None)):
+                    return isinstance(op, ast.IsNot)
+                raise _U()
+            if isinstance(op, (ast.Eq, ast.NotEq)) and l[0] == 'const' and r[0] == 'const':
+                return (l[1] == r[1]) == isinstance(op, ast.Eq)
+            raise _U()
+        return truth(ev(e))
+    try:
+        return tv(test)
+    except _U:
+        return None
+
+
+def _is_pure_path(e):
+    """a constant, a name, or an attribute path of a name (no call, no subscript): reading it twice gives the same object as reading it once
+    as far as the rules are concerned"""
+    if isinstance(e, ast.Constant):
+        return True
+    while isinstance(e, ast.Attribute):
+        e = e.value
+    return isinstance(e, ast.Name)
+
+
+class _Subst(ast.NodeTransformer):
+    def __init__(self, mapping):
+        self.mapping = mapping
+
+    def visit_Name(self, node):
+        if isinstance(node.ctx, ast.Load) and node.id in self.mapping:
+            import copy
+            return ast.copy_location(copy.deepcopy(self.mapping[node.id]), node)
+        return node
+
+    def visit_FunctionDef(self, node):
+        return node
+    visit_AsyncFunctionDef = visit_Lambda = visit_FunctionDef
+
+
+def _record_types(tree):
+    """module-level record types whose fields are known: `T = namedtuple('T', [...])` and classes whose __init__ stores each parameter in the
+    attribute of the same name -> {name: [field, ...]} in constructor order"""
+    out = {}
+    for st in tree.body:
+        if isinstance(st, ast.Assign) and len(st.targets) == 1 and isinstance(st.targets[0], ast.Name) and isinstance(st.value, ast.Call):
+            f = st.value.func
+            if (isinstance(f, ast.Name) and f.id == 'namedtuple') or (isinstance(f, ast.Attribute) and f.attr == 'namedtuple'):
+                if len(st.value.args) >= 2:
+                    spec = st.value.args[1]
+                    if isinstance(spec, (ast.List, ast.Tuple)) and all(isinstance(e, ast.Constant) and isinstance(e.value, str) for e in spec.elts):
+                        out[st.targets[0].id] = [e.value for e in spec.elts]
+                    elif isinstance(spec, ast.Constant) and isinstance(spec.value, str):
+                        out[st.targets[0].id] = spec.value.replace(',', ' ').split()
+        elif isinstance(st, ast.ClassDef):
+            init = [m for m in st.body if isinstance(m, ast.FunctionDef) and m.name == '__init__']
+            if len(init) == 1 and not init[0].args.vararg and not init[0].args.kwarg and not init[0].args.kwonlyargs:
+                ps = [a.arg for a in init[0].args.args[1:]]
+                recv = init[0].args.args[0].arg if init[0].args.args else None
+                body = [b for b in init[0].body if not (isinstance(b, ast.Expr) and isinstance(b.value, ast.Constant))]
+                ok = len(body) == len(ps) and all(
+                    isinstance(b, ast.Assign) and len(b.targets) == 1 and isinstance(b.targets[0], ast.Attribute) and isinstance(b.targets[0].value, ast.Name) and
+                    b.targets[0].value.id == recv and isinstance(b.value, ast.Name) and b.value.id == b.targets[0].attr and b.value.id in ps for b in body)
+                if ok and ps:
+                    out[st.name] = ps
+    return out
+
+
+def _stores(fn):
+    """name -> number of binding sites in the function (parameters count as one)"""
+    n = {}
+    for a in fn.args.posonlyargs + fn.args.args + fn.args.kwonlyargs:
+        n[a.arg] = n.get(a.arg, 0) + 1
+    for x in ast.walk(fn):
+        if isinstance(x, ast.Name) and isinstance(x.ctx, (ast.Store, ast.Del)):
+            n[x.id] = n.get(x.id, 0) + 1
+        elif isinstance(x, ast.ExceptHandler) and x.name:
+            n[x.name] = n.get(x.name, 0) + 2
+        elif isinstance(x, (ast.FunctionDef, ast.AsyncFunctionDef, ast.Lambda)) and x is not fn:
+            # names rebound in nested scopes are left alone altogether
+            for y in ast.walk(x):
+                if isinstance(y, ast.Name):
+                    n[y.id] = n.get(y.id, 0) + 2
+    return n
+
+
+def _scalar_replacement(fn, records):
+    """values that travel together in a tuple or a small record built from plain names in this function: an unpacking of it, or a read of one of
+    its fields, is the name it was built from (only for aggregates and names bound exactly once)"""
+    stores = _stores(fn)
+    # a binding that is directly followed, in its own statement list, by statements that always leave the function does not reach anything else
+    for x in ast.walk(fn):
+        for fld in ('body', 'orelse', 'finalbody'):
+            lst = getattr(x, fld, None)
+            if isinstance(lst, list):
+                for i, st in enumerate(lst):
+                    if isinstance(st, ast.Assign) and len(st.targets) == 1 and isinstance(st.targets[0], ast.Name) and isinstance(st.value, ast.Constant) and \
+                            any(isinstance(y, (ast.Return, ast.Raise)) for y in lst[i + 1:]):
+                        stores[st.targets[0].id] = stores.get(st.targets[0].id, 0) - 1
+    # an unpacking that directly follows the (only live) packing: element by element, whatever else happens to the names elsewhere
+    def last_effective(st):
+        while isinstance(st, ast.If) and getattr(st, '_inlined_block_id', None) is not None:
+            inner = [y for y in st.body if not isinstance(y, ast.Pass)]
+            if not inner:
+                return None
+            st = inner[-1]
+        return st
+    for x in ast.walk(fn):
+        for fld in ('body', 'orelse', 'finalbody'):
+            lst = getattr(x, fld, None)
+            if not isinstance(lst, list):
+                continue
+            for i in range(1, len(lst)):
+                st = lst[i]
+                if isinstance(st, ast.Assign) and len(st.targets) == 1 and isinstance(st.targets[0], ast.Tuple) and isinstance(st.value, ast.Name) and stores.get(st.value.id) == 1:
+                    prev = last_effective(lst[i - 1])
+                    if isinstance(prev, ast.Assign) and len(prev.targets) == 1 and isinstance(prev.targets[0], ast.Name) and prev.targets[0].id == st.value.id and \
+                            isinstance(prev.value, ast.Tuple) and len(prev.value.elts) == len(st.targets[0].elts) and all(isinstance(e, ast.Name) for e in prev.value.elts + st.targets[0].elts):
+                        tn = [e.id for e in st.targets[0].elts]
+                        vn = [e.id for e in prev.value.elts]
+                        pairs = [(t, v) for t, v in zip(tn, vn) if t != v]
+                        if not ({t for t, _v in pairs} & {v for _t, v in pairs}):
+                            new = [ast.copy_location(ast.Assign(targets=[ast.Name(id=t, ctx=ast.Store())], value=ast.Name(id=v, ctx=ast.Load()), type_comment=None), st) for t, v in pairs]
+                            lst[i:i + 1] = new or [ast.copy_location(ast.Pass(), st)]
+                            ast.fix_missing_locations(fn)
+                            return _scalar_replacement(fn, records)
+    # names that live entirely inside one expanded block are frozen once the block has ended
+    private = {}
+    for b in ast.walk(fn):
+        if isinstance(b, ast.If) and getattr(b, '_inlined_block_id', None) is not None:
+            inside = {}
+            for y in ast.walk(b):
+                if isinstance(y, ast.Name) and isinstance(y.ctx, (ast.Store, ast.Del)):
+                    inside[y.id] = inside.get(y.id, 0) + 1
+            last = last_effective(b)
+            if isinstance(last, ast.Assign):
+                private[id(last)] = {nm for nm, k in inside.items() if stores.get(nm) == k}
+
+    def frozen(e, at):
+        return isinstance(e, ast.Name) and (stores.get(e.id, 0) <= 1 or e.id in private.get(id(at), ()))
+    aggs = {}
+    for x in ast.walk(fn):
+        if isinstance(x, ast.Assign) and len(x.targets) == 1 and isinstance(x.targets[0], ast.Name) and stores.get(x.targets[0].id) == 1:
+            v = x.value
+            if isinstance(v, ast.Tuple) and v.elts and all(frozen(e, x) for e in v.elts):
+                aggs[x.targets[0].id] = ('tuple', [e.id for e in v.elts])
+            elif isinstance(v, ast.Call) and isinstance(v.func, ast.Name) and v.func.id in records and not any(isinstance(a, ast.Starred) for a in v.args) and \
+                    all(k.arg for k in v.keywords):
+                fields = records[v.func.id]
+                vals = {}
+                for f_, a in zip(fields, v.args):
+                    vals[f_] = a
+                for k in v.keywords:
+                    vals[k.arg] = k.value
+                if set(vals) == set(fields) and all(frozen(a, x) for a in vals.values()):
+                    aggs[x.targets[0].id] = ('record', {f_: a.id for f_, a in vals.items()}, [vals[f_].id for f_ in fields])
+    if not aggs:
+        return
+
+    class _T(ast.NodeTransformer):
+        def visit_FunctionDef(self, node):
+            if node is fn:
+                self.generic_visit(node)
+            return node
+        visit_AsyncFunctionDef = visit_FunctionDef
+
+        def visit_Lambda(self, node):
+            return node
+
+        def visit_Attribute(self, node):
+            self.generic_visit(node)
+            if isinstance(node.ctx, ast.Load) and isinstance(node.value, ast.Name) and node.value.id in aggs and aggs[node.value.id][0] == 'record' and node.attr in aggs[node.value.id][1]:
+                return ast.copy_location(ast.Name(id=aggs[node.value.id][1][node.attr], ctx=ast.Load()), node)
+            return node
+
+        def visit_Subscript(self, node):
+            self.generic_visit(node)
+            if isinstance(node.ctx, ast.Load) and isinstance(node.value, ast.Name) and node.value.id in aggs and isinstance(node.slice, ast.Constant) and isinstance(node.slice.value, int):
+                a = aggs[node.value.id]
+                names = a[1] if a[0] == 'tuple' else a[2]
+                if 0 <= node.slice.value < len(names):
+                    return ast.copy_location(ast.Name(id=names[node.slice.value], ctx=ast.Load()), node)
+            return node
+
+        def visit_Assign(self, node):
+            self.generic_visit(node)
+            if len(node.targets) == 1 and isinstance(node.targets[0], ast.Tuple) and isinstance(node.value, ast.Name) and node.value.id in aggs:
+                a = aggs[node.value.id]
+                names = a[1] if a[0] == 'tuple' else a[2]
+                t = node.targets[0]
+                if len(t.elts) == len(names) and all(isinstance(e, ast.Name) for e in t.elts):
+                    res = [ast.copy_location(ast.Assign(targets=[e], value=ast.copy_location(ast.Name(id=nm, ctx=ast.Load()), node), type_comment=None), node)
+                           for e, nm in zip(t.elts, names) if e.id != nm]
+                    for r in res:
+                        if hasattr(node, '_inlined_from'):
+                            r._inlined_from = node._inlined_from
+                    return res or ast.copy_location(ast.Pass(), node)
+            return node
+    _T().visit(fn)
+    ast.fix_missing_locations(fn)
+
+
+def _propagate_temporaries(fn):
+    """a name introduced by the expander (`__...`) that is bound exactly once, to another name that is itself bound at most once, is that name"""
+    stores = _stores(fn)
+    copies = {}
+    for x in ast.walk(fn):
+        if isinstance(x, ast.Assign) and len(x.targets) == 1 and isinstance(x.targets[0], ast.Name) and x.targets[0].id.startswith('__') and \
+                stores.get(x.targets[0].id) == 1 and isinstance(x.value, ast.Name) and stores.get(x.value.id, 0) <= 1 and x.value.id != x.targets[0].id:
+            copies[x.targets[0].id] = x.value.id
+    if not copies:
+        return
+
+    def root(nm, seen=()):
+        while nm in copies and nm not in seen:
+            seen += (nm,)
+            nm = copies[nm]
+        return nm
+
+    class _T(ast.NodeTransformer):
+        def visit_Lambda(self, node):
+            return node
+
+        def visit_FunctionDef(self, node):
+            if node is fn:
+                self.generic_visit(node)
+            return node
+        visit_AsyncFunctionDef = visit_FunctionDef
+
+        def visit_Name(self, node):
+            if isinstance(node.ctx, ast.Load) and node.id in copies:
+                return ast.copy_location(ast.Name(id=root(node.id), ctx=ast.Load()), node)
+            return node
+
+        def visit_Assign(self, node):
+            if len(node.targets) == 1 and isinstance(node.targets[0], ast.Name) and node.targets[0].id in copies:
+                return ast.copy_location(ast.Pass(), node)
+            self.generic_visit(node)
+            return node
+    _T().visit(fn)
+    ast.fix_missing_locations(fn)
 
 
 class Module:
